@@ -174,7 +174,12 @@ SPECS = {
                 'opt_stops_at_word(self.lexems@, run.1) || (run.0 == (OptSt { mode, min_depth, max_depth, archives, symlinks, gitignore, hgignore, dockerignore, traversal, regexp }) '
                 '&& self.index >= run.1 && (run.1 < self.lexems@.len() ==> self.index == run.1)) })'])}),
     'is_regexp_root_option': dict(ret='r', ensures=['r == spec_is_rx_word(s@)']),
-    'parse_fields': dict(ret='r', attrs=[NODEC], ensures=FRAME, loops={0: dict(invariant=LOOPINV)}),
+    # C11: a comma between columns and the word `select` (any letter case) add nothing to the select list - each is skipped as one token
+    'parse_fields': dict(ret='r', attrs=[NODEC], ensures=FRAME,
+        proofs_after={r'let\s+mut\s+fields\s*=\s*vec!\[\]\s*;': 'let ghost mut verif_pf: Seq<Expr> = fields@; let ghost mut verif_pi: int = self.index as int; let ghost mut verif_pt: Option<Lexem> = None;'},
+        proofs={r'let\s+lexem\s*=\s*self\.next_lexem\(\);': 'proof { verif_pf = fields@; verif_pi = self.index as int; verif_pt = lexem_at(*self, 0); }'},
+        loops={0: dict(invariant=LOOPINV,
+                       invariant_except_break=['/*C11.fields.skip*/ pf_skip(verif_pt) ==> (fields@ == verif_pf && self.index == verif_pi + 1)'])}),
     # every documented option name (any letter case) is recognised as one
     'is_root_option_keyword': dict(ret='r', ensures=['/*C11.rootopt.keyword*/ opt_doc_name(opt_init(), s@, true) is Some ==> r'],
                                    proofs={r'let\s+s\s*=\s*s\.to_ascii_lowercase\(\);': 'broadcast use axiom_pat_view_str; proof { opt_reveal_literals(); }'}),
@@ -211,6 +216,13 @@ SPECS['negate_expr_op']['decreases'] = 'expr'
 
 EXTRA = '''
 pub uninterp spec fn spec_argless(f: Function) -> bool;
+// tokens of the select list that stand for nothing: a comma, the word `select`
+pub open spec fn pf_skip(t: Option<Lexem>) -> bool {
+    t is Some && (t->Some_0 is Comma
+        || (t->Some_0 is String && spec_ascii_lower(t->Some_0->String_0@) == "select"@)
+        || (t->Some_0 is RawString && spec_ascii_lower(t->Some_0->RawString_0@) == "select"@)
+        || (t->Some_0 is ArithmeticOperator && spec_ascii_lower(t->Some_0->ArithmeticOperator_0@) == "select"@))
+}
 pub uninterp spec fn spec_format_from(s: Seq<char>) -> Option<OutputFormat>;
 pub uninterp spec fn spec_op_from(s: Seq<char>) -> Option<Op>;
 pub open spec fn spec_op_with_not(s: Seq<char>, not: bool) -> Option<Op> {
